@@ -191,6 +191,8 @@ pub struct Evidence {
     pub violations: u64,
     pub known_hits: BTreeMap<String, u64>,
     pub extra: BTreeMap<String, Value>,
+    /// evidence written by an earlier part of the same check (`--merge-evidence`): the two parts are reported together
+    pub merge_base: Option<Value>,
     start: Instant,
 }
 
@@ -206,6 +208,11 @@ impl Evidence {
             nontrivial: BTreeSet::new(),
             labels: BTreeMap::new(),
             samples: vec![],
+            merge_base: if s.extra.contains_key("merge-evidence") {
+                std::fs::read_to_string(Path::new(VERIF_ROOT).join("evidence").join(format!("{}.json", s.prop))).ok().and_then(|t| serde_json::from_str(&t).ok())
+            } else {
+                None
+            },
             max_samples: 5,
             assumptions: vec![],
             violations: 0,
@@ -243,15 +250,52 @@ impl Evidence {
         for (k, v) in &self.extra {
             cov.insert(k.clone(), v.clone());
         }
+        let mut assumptions = self.assumptions.clone();
+        let mut wall = (self.start.elapsed().as_secs_f64() * 1000.0).round() / 1000.0;
+        let mut violations = self.violations;
+        if let Some(base) = &self.merge_base {
+            // two engines decide this property: add the other part's numbers, keep both rules and samples
+            let b = &base["coverage"];
+            let n = |v: &Value| v.as_u64().unwrap_or(0);
+            cov.insert("evaluations".into(), json!(self.evaluations + n(&b["evaluations"])));
+            cov.insert("distinct_nontrivial".into(), json!(self.nontrivial.len() as u64 + n(&b["distinct_nontrivial"])));
+            cov.insert("rule".into(), json!(format!("part (a): {} || {}", b["rule"].as_str().unwrap_or(""), self.rule)));
+            let mut samples = b["samples"].as_array().cloned().unwrap_or_default();
+            samples.extend(self.samples.clone());
+            cov.insert("samples".into(), Value::Array(samples));
+            let mut labels: BTreeMap<String, u64> = self.labels.clone();
+            if let Some(m) = b["labels"].as_object() {
+                for (k, v) in m {
+                    *labels.entry(k.clone()).or_insert(0) += n(v);
+                }
+            }
+            cov.insert("labels".into(), json!(labels));
+            let mut hits: BTreeMap<String, u64> = self.known_hits.clone();
+            if let Some(m) = b["known_finding_hits"].as_object() {
+                for (k, v) in m {
+                    *hits.entry(k.clone()).or_insert(0) += n(v);
+                }
+            }
+            cov.insert("known_finding_hits".into(), json!(hits));
+            for a in base["assumptions"].as_array().cloned().unwrap_or_default() {
+                if let Some(a) = a.as_str() {
+                    if !assumptions.iter().any(|x| x == a) {
+                        assumptions.push(a.to_string());
+                    }
+                }
+            }
+            wall += base["wall_s"].as_f64().unwrap_or(0.0);
+            violations += n(&base["violations"]);
+        }
         let doc = json!({
             "property_id": self.prop,
             "tier": self.tier.as_str(),
             "seed": self.seed,
             "level": self.level,
             "coverage": Value::Object(cov),
-            "assumptions": self.assumptions,
-            "wall_s": (self.start.elapsed().as_secs_f64() * 1000.0).round() / 1000.0,
-            "violations": self.violations,
+            "assumptions": assumptions,
+            "wall_s": wall,
+            "violations": violations,
         });
         let p = dir.join(format!("{}.json", self.prop));
         let tmp = dir.join(format!(".{}.json.tmp", self.prop));
